@@ -77,7 +77,7 @@ def run(prog, tier):
                          function=f.sig, expr=q)
     res.ok('unsafe-call', 'all call sites screened against spec/thread_unsafe.json', 'src/',
            '%d call sites, %d denylisted names' % (ncalls, len(unsafe)), function='', expr='screen')
-    res.minimum('call sites screened', ncalls, 800)
+    res.minimum('call sites screened', ncalls, 500)
     res.minimum('foreign static references', nrefs, 20)
 
     # (per-object) -----------------------------------------------------------------------------
@@ -202,11 +202,101 @@ def field_writes(prog, cls, field):
     return out
 
 
+def alloc_wrapper(prog, usr):
+    """a repo function all of whose returns are `new T[...]` / `new T(...)` (an allocation wrapper):
+    -> (func, new-expression node) else None"""
+    g = prog.funcs.get(usr)
+    if g is None:
+        return None
+    rets = [r for r in g.all_nodes({'ReturnStmt'}) if r['ch']]
+    if not rets:
+        return None
+    out = None
+    for r in rets:
+        n = g.nodes[g.strip(r['ch'][0], 'all')]
+        if n['k'] != 'CXXNewExpr':
+            return None
+        out = n
+    return g, out
+
+
+def as_new(f, i, depth=0):
+    """expression i is (through single-definition locals, smart-pointer construction and allocation
+    wrappers) a fresh allocation: -> dict(array, size_poly or None, where) else None"""
+    import poly as P
+    from paths import Renderer, local_init
+    i = f.strip(i, 'all')
+    n = f.nodes[i]
+    if n['k'] == 'CXXNewExpr':
+        sp = P.poly(f, n['arrsize'], Renderer(f)) if n.get('array') and 'arrsize' in n else None
+        return {'array': bool(n.get('array')), 'size': sp, 'where': f.loc(i)}
+    if depth > 4:
+        return None
+    if n['k'] == 'DeclRefExpr' and n['decl'].get('dk') == 'local':
+        R = Renderer(f)
+        init = local_init(f, n['decl']['id'])
+        if init is not None and (n['decl']['id'] in R.single_def_locals() or not _reassigned(f, n['decl']['id'])):
+            return as_new(f, init, depth + 1)
+        return None
+    if n['k'] in ('CXXConstructExpr', 'CXXTemporaryObjectExpr', 'CXXFunctionalCastExpr', 'CXXBindTemporaryExpr', 'MaterializeTemporaryExpr') and n['ch']:
+        # shared_ptr<T>(new T(..)) / copy or move of a fresh smart pointer
+        for c in n.get('args', n['ch']):
+            r = as_new(f, c, depth + 1)
+            if r:
+                return r
+        return None
+    if n['k'] == 'CallExpr' and n.get('callee', {}).get('qname') in ('std::move', 'std::make_shared', 'std::make_unique'):
+        if n['callee']['qname'] != 'std::move':
+            return {'array': False, 'size': None, 'where': f.loc(i)}
+        return as_new(f, n['args'][0], depth + 1)
+    if n['k'] in ('CallExpr', 'CXXMemberCallExpr') and 'callee' in n:
+        w = alloc_wrapper(f.prog, n['callee']['usr'])
+        if w:
+            g, nn = w
+            sp = None
+            if nn.get('array') and 'arrsize' in nn:
+                sp = P.poly(g, nn['arrsize'], Renderer(g))
+                # substitute the wrapper's parameters by the call's arguments
+                R = Renderer(f)
+                args = f.call_args(n)
+                out = {}
+                for mono, c in sp.items():
+                    term = P.const(c)
+                    for a in mono:
+                        m = __import__('re').match(r'^arg(\d+)$', a)
+                        if m and int(m.group(1)) < len(args):
+                            term = P.mul(term, P.poly(f, args[int(m.group(1))], R))
+                        else:
+                            term = P.mul(term, {(a,): 1})
+                    out = P.add(out, term)
+                sp = out
+            return {'array': bool(nn.get('array')), 'size': sp, 'where': g.loc(nn['id'])}
+    return None
+
+
+def _reassigned(f, vid):
+    for n in f.nodes:
+        if (n['k'] == 'BinaryOperator' and n['op'] == '=') or (n['k'] == 'CXXOperatorCallExpr' and n.get('op') == '='):
+            t = n['ch'][0] if n['k'] == 'BinaryOperator' else n['args'][0]
+            tn = f.nodes[f.strip(t, 'all')]
+            if tn['k'] == 'DeclRefExpr' and tn['decl'].get('id') == vid:
+                return True
+        if n['k'] == 'CXXMemberCallExpr' and n['callee']['name'] in ('reset', 'swap') and n.get('obj') is not None:
+            tn = f.nodes[f.strip(n['obj'], 'all')]
+            if tn['k'] == 'DeclRefExpr' and tn['decl'].get('id') == vid:
+                return True
+    return False
+
+
 def contains_new(f, i):
+    if as_new(f, i) is not None:
+        return True
     for x in f.descendants(i):
         n = f.nodes[x]
         if n['k'] == 'CXXNewExpr':
             return True
         if n['k'] == 'CallExpr' and n.get('callee', {}).get('qname') in ('std::make_shared', 'std::make_unique'):
+            return True
+        if n['k'] in ('CallExpr', 'CXXMemberCallExpr') and 'callee' in n and alloc_wrapper(f.prog, n['callee']['usr']):
             return True
     return False
